@@ -86,7 +86,7 @@ def build(S, tier):
         if I.truth(I.eval(node.test, frame)):
             pre_conv = to_z3(frame.locals["converged"].rep, "bool")
             pre_z, pre_u = R(mc.attrs["zeta"].rep), R(frame.locals["probability_random"].rep)
-            yield from I.exec_block(node.body, frame)
+            yield from I.exec_loop_body(node, frame)
             I.path.oblige(FB + ".step#loop[0].preserve", inv(), kind="loop")
             # converged coordinates are never re-drawn
             I.path.oblige(FB + ".step#loop[0].converged_coordinates_kept",
